@@ -207,4 +207,23 @@ func solveAll(dir string, jobs []job, timeoutS int, thorough bool, workers int) 
 	}
 	close(ch)
 	wg.Wait()
+	// second chance: a query that ran out of time while every core was busy is tried again on its own, with all
+	// solvers racing and a long limit, before it is reported as undischarged (a loaded machine must not turn
+	// into an accusation)
+	if thorough {
+		return
+	}
+	retried := map[string]solveResult{}
+	for _, j := range jobs {
+		if j.o.Assume || (j.o.Status != "timeout" && j.o.Status != "unknown" && j.o.Status != "error") {
+			continue
+		}
+		r, ok := retried[j.query]
+		if !ok {
+			r = solve(dir, j.query, 60, false, false)
+			retried[j.query] = r
+		}
+		j.o.Note += fmt.Sprintf(" | first pass: %s by %s; retried alone", j.o.Status, j.o.Solver)
+		j.o.Status, j.o.Solver, j.o.Time, j.o.Model = r.Status, r.Solver, j.o.Time+r.Time, r.Model
+	}
 }
